@@ -5,6 +5,9 @@ CONSTANTS
   ISRs = {{1}, {1, 2}, {1, 2, 3}}
   MinISRs = {1, 2, 3}
   Stores = {"memory", "messagedb"}
+  FwdModes = {"miss", "old", "cur"}
+  PreLeos = {0, 3, 5}
+  PreBars = {0, 1, 2, 3, 4, 5}
   MaxLeo = 7
   MaxB = 7
   Trims = {0, 1, 2}
@@ -15,6 +18,7 @@ CONSTANTS
   SyncEnds = {0}
   CapZeroUnbounded = FALSE
   LastUncapped = FALSE
+  FwdDropsSyncOnce = FALSE
   Depth = 25
 INVARIANT Emit
 CHECK_DEADLOCK FALSE
